@@ -59,7 +59,7 @@ def _sizes(rng, block, maxreq):
 def gen_cases(tier, seed):
     rng = random.Random(f'c12-{seed}')
     cases = []
-    n = 700 if tier == 'quick' else 30000
+    n = 1600 if tier == 'quick' else 30000
     for i in range(n):
         op = rng.choice(['get', 'get', 'put', 'put', 'copy', 'file_read',
                          'file_read', 'file_write'])
@@ -88,7 +88,7 @@ def gen_cases(tier, seed):
             'chunk': rng.choice(['all', 'record', 'random']),
             'cseed': rng.randrange(1 << 30)})
 
-    ns = 24 if tier == 'quick' else 600
+    ns = 60 if tier == 'quick' else 600
     for i in range(ns):
         cases.append({'op': 'sparse',
                       'layout': [[rng.choice([0, 4096, 65536, 100000]),
@@ -99,7 +99,7 @@ def gen_cases(tier, seed):
                       'maxreq': rng.choice([1, 4, 128]),
                       'chunk': 'all', 'cseed': rng.randrange(1 << 30)})
     # directory trees with symbolic links, copied recursively
-    for i in range(24 if tier == 'quick' else 400):
+    for i in range(48 if tier == 'quick' else 400):
         cases.append({'op': 'tree', 'how': ['get', 'put', 'copy', 'mget'][i % 4],
                       'follow': i % 3 != 0,
                       'sparse_arg': rng.choice([None, False]),
